@@ -423,7 +423,8 @@ def summary_combos(c, repo):
         return r
     rates = [rate(), rate(sur="5.2%"), rate(sur="1.4%"), rate(pct="10.0%"), rate(pct="10.0%", sur="1.4%"), rate(pct=None, key="exempt"),
              rate(pct=None, key="exempt", ext={"es-tbai-exemption": "E1"}), rate(ext={"es-tbai-product": "services"}), rate(country="PT"),
-             rate(country="PT", sur="5.2%"), rate(key="standard"), rate(key="standard", sur="5.2%")]
+             rate(country="PT", sur="5.2%"), rate(key="standard"), rate(key="standard", sur="5.2%"),
+             rate(pct=None, key="exempt", sur="5.2%"), rate(pct=None, key="exempt", sur="1.4%"), rate(pct=None, sur="5.2%")]
     def summary(rs, cat="VAT", retained=False):
         ct = {"code": cat, "rates": rs, "amount": "21.00"}
         if retained:
